@@ -132,6 +132,7 @@ def witness(cfg: CFG, prev, at: Tuple[int, str], last_edge: Tuple[int, str]) -> 
 # ---------------------------------------------------------------------------
 def check(ctx):
     repo = ctx.repo
+    ctx.rule("R05.11", "per-step records are concatenated in numeric step order (never in the lexicographic order of the group names)", 2)
     ctx.rule("R05.1", "label/content typestate on the CFG of _run_stage: every frame is saved with exactly as many updates "
                       "applied as its step label says, on every path incl. KeyboardInterrupt from the update and the writer", 1)
     ctx.rule("R05.9", "the final step is saved exactly once: on the last iteration (stop test true) exactly one save executes, for "
@@ -177,6 +178,7 @@ def check(ctx):
     records(ctx, frs)
     ranks(ctx)
     thermalisation(ctx)
+    frame_order(ctx)
     times_typing(ctx)
     zero_init(ctx)
     ctx.assume("exceptions are injected at the update call and at the frame writer (the two points the properties name); "
@@ -777,3 +779,40 @@ def final_step_saved_once(ctx, frs, cfg, ev):
                consequence="the final step is not recorded (or recorded twice): e.g. a run that ends at step N with N % save_every == 0 "
                            "loses frame N and the last save_every per-step records",
                witness={"input": "fixed dt, N = 6 steps, save_every = 3"})
+
+
+def frame_order(ctx):
+    """Frame groups are named '0', '1', ..., '10', ...: iterating them must go through integers (range, or sorted with an int key)."""
+    repo = ctx.repo
+    n = 0
+    for qual in ("DynamicsData.from_hdf5", "get_data_range"):
+        f = repo.func(DATA, qual)
+        for lp in own_nodes(f.node):
+            its = []
+            if isinstance(lp, ast.For):
+                its.append(lp.iter)
+            if isinstance(lp, (ast.ListComp, ast.GeneratorExp, ast.SetComp)):
+                its += [g.iter for g in lp.generators]
+            for it in its:
+                from ..dataflow import expand
+                e = expand(f.node, it)
+                txt = norm(e)
+                if "data" not in txt and "step" not in txt:
+                    continue
+                n += 1
+                numeric = isinstance(e, ast.Call) and norm(e.func) == "range"
+                if isinstance(e, ast.Call) and norm(e.func) == "sorted":
+                    a0 = e.args[0] if e.args else None
+                    elt_int = isinstance(a0, (ast.ListComp, ast.GeneratorExp, ast.SetComp)) and isinstance(a0.elt, ast.Call) and norm(a0.elt.func) == "int"
+                    map_int = isinstance(a0, ast.Call) and norm(a0.func) == "map" and a0.args and norm(a0.args[0]) == "int"
+                    numeric = any(k.arg == "key" and norm(k.value) == "int" for k in e.keywords) or elt_int or map_int
+                raw_keys = isinstance(e, ast.Call) and norm(e.func) == "sorted" and not numeric
+                unordered = not isinstance(e, ast.Call) and ("h5file" in txt or "data" in txt) and isinstance(lp, ast.For) and any(
+                    isinstance(c, ast.Call) and isinstance(c.func, ast.Attribute) and c.func.attr == "append" for c in ast.walk(lp))
+                ctx.ob("R05.11", f"{qual}: iteration over `{txt[:60]}` is in numeric step order", not (raw_keys or unordered),
+                       detail={"iter": txt}, where=f.fq, construct=f"frame iteration order in {qual}", loc=loc(f, lp),
+                       message=f"{qual} iterates the frames as `{txt[:80]}`: group names are strings, so the order is '0', '1', '10', '11', ..., '2'",
+                       consequence="with more than ten frames the per-step records (dt, mu, theta) are concatenated out of step order: "
+                                   "Solution.times and dynamics no longer match the frame labels")
+    if n < 2:
+        raise AnalysisError(f"only {n} frame iterations found in the record readers")
